@@ -117,4 +117,80 @@ theorem run_phase (kind : Kind) (tr : List Ev) : ∀ (st st' : St), (st.phase = 
           simp [writesAfterRun, hw', hasWrite]
     · cases h
 
+theorem runFrom_append (k : Kind) (a b : List Ev) : ∀ st, runFrom k st (a ++ b) =
+    (match runFrom k st a with | .ok st1 => runFrom k st1 b | .error r => .error r) := by
+  induction a with
+  | nil => intro st; simp [runFrom]
+  | cons e es ih =>
+    intro st
+    simp only [List.cons_append, runFrom]
+    cases stepSt k st e with
+    | ok st1 => simpa using ih st1
+    | error r => simp
+
+theorem run_hosts (k : Kind) (f : Bool) (n : Nat) : runFrom k ⟨.pre, f⟩ (List.replicate n Ev.host) = .ok ⟨.pre, f⟩ := by
+  induction n with
+  | zero => simp [runFrom]
+  | succ n ih => simp [List.replicate_succ, runFrom, stepSt, ih]
+
+theorem run_runEvs (k : Kind) (f : Bool) (l : List RunEv) : runFrom k ⟨.run, f⟩ (l.map RunEv.ev) = .ok ⟨.run, f⟩ := by
+  induction l with
+  | nil => simp [runFrom]
+  | cons e es ih => cases e <;> simp [runFrom, stepSt, RunEv.ev, ih]
+
+theorem run_writes_commit (k : Kind) (f : Bool) (ws : List Ev) (hw : ∀ e ∈ ws, e.isWrite = true) :
+    runFrom k ⟨.commit, f⟩ ws = .ok ⟨.commit, f⟩ := by
+  induction ws with
+  | nil => simp [runFrom]
+  | cons e es ih =>
+    have he := hw e (by simp)
+    cases e <;> simp [Ev.isWrite] at he
+    simp only [runFrom, stepSt]
+    exact ih (fun x hx => hw x (by simp [hx]))
+
+theorem run_writes_run (k : Kind) (f : Bool) (ws : List Ev) (hw : ∀ e ∈ ws, e.isWrite = true) :
+    runFrom k ⟨.run, f⟩ ws = .ok ⟨if ws.isEmpty then .run else .commit, f⟩ := by
+  cases ws with
+  | nil => simp [runFrom]
+  | cons e es =>
+    have he := hw e (by simp)
+    cases e <;> simp [Ev.isWrite] at he
+    simp only [runFrom, stepSt, List.isEmpty_cons]
+    exact run_writes_commit k f es (fun x hx => hw x (by simp [hx]))
+
+theorem commitEvents_run (k : Kind) (hk : k ≠ .script) (b : Behaviour) :
+    runFrom k ⟨.run, false⟩ (commitEvents b ++ [Ev.endOk]) = .ok ⟨.done, false⟩ := by
+  unfold commitEvents
+  rw [List.append_assoc, List.append_assoc, runFrom_append, run_runEvs]
+  simp only []
+  rw [← List.append_assoc, runFrom_append]
+  have hw : ∀ e ∈ (b.acctWrites.map (fun o => Ev.write o false 0) ++ b.slabWrites.map (fun (o, i) => Ev.write o true i)),
+      e.isWrite = true := by
+    intro e he
+    simp only [List.mem_append, List.mem_map] at he
+    rcases he with ⟨_, _, rfl⟩ | ⟨⟨_, _⟩, _, rfl⟩ <;> rfl
+  rw [run_writes_run k false _ hw]
+  simp only []
+  split <;> simp [runFrom, stepSt, hk]
+
+theorem exec_accepted_aux (kind : Kind) (b : Behaviour) :
+    accept kind (exec ⟨false, false⟩ kind b) = .ok ⟨.done, false⟩ := by
+  unfold accept exec
+  rw [List.append_assoc, runFrom_append, run_hosts]
+  simp only [List.singleton_append, runFrom, stepSt]
+  cases hpre : b.preOk with
+  | false => simp [runFrom, stepSt]
+  | true =>
+    simp only [Bool.not_true, Bool.false_eq_true, if_false]
+    rw [runFrom_append, run_runEvs]
+    simp only []
+    cases hok : b.ok with
+    | false => simp [runFrom, stepSt]
+    | true =>
+      simp only [if_true, Bool.not_false, Bool.and_true]
+      by_cases hk : kind = .script
+      · simp [hk, runFrom, stepSt]
+      · have := commitEvents_run kind hk b
+        simp [hk, this]
+
 end Verif.Proofs.Exec
